@@ -5,7 +5,7 @@ from gen_counter import *  # noqa
 PROP_FILES = ["Counter/Properties_C03.v"]
 MANIFEST = dict(
     technique="Coq proof (induction over the line list / source suffix) on a Gallina port of sloc.rs+comment.rs, tied by differential execution of the extracted model against SlocCounter's three entry points",
-    text="Theorems C03_partition, C03_total_is_line_count, C03_line_splitters_agree, C03_entry_points_agree, C03_append_monotone, C03_append_ignored_only_by_directive hold for every syntax value and every source (unbounded); C03_scanner_index_safe / C03_skipper_index_safe show that the index-level mirror of the char-vector scanner (explicit indices, bounds-checked accesses returning Panic, loops on fuel) never panics and never stalls for any input and refines the list-level model. The tie to the Rust code is a seeded differential run (built-in and adversarial custom syntaxes, arbitrary bytes, append pairs) plus the property oracles evaluated on the implementation itself.",
+    text="Theorems C03_partition, C03_total_is_line_count, C03_line_splitters_agree, C03_entry_points_agree, C03_append_monotone, C03_append_ignored_only_by_directive hold for every syntax value and every source (unbounded); C03_scanner_index_safe / C03_skipper_index_safe / C03_lua_scanner_index_safe / C03_marker_counter_index_safe show that the index-level mirrors of all char-vector loops of src/counter/comment.rs (find_outside_string, StringSkipper, raw-string helpers, the Lua long-bracket scanner, the nesting marker counter: explicit indices, bounds-checked accesses returning Panic, loops on fuel) never panic and never stall for any input and refine the list-level model. The tie to the Rust code is a seeded differential run (built-in and adversarial custom syntaxes, arbitrary bytes, append pairs) plus the property oracles evaluated on the implementation itself.",
     note="Trusted: Coq kernel, extraction (ExtrOcamlBasic), harness sgv-counter, UTF-8 lossy decoding of std. Panic-freedom/termination of the Rust loops is observed (catch_unwind, deadline), not proved.",
     ref="5 (C03)")
 
